@@ -72,6 +72,29 @@ def bits_to_f32(bits, shape):
     return np.array(bits, dtype=np.uint32).view(np.float32).reshape(shape)
 
 
+LAYOUTS = ['C', 'F', 'T', 'S', 'N']
+
+
+def with_layout(a, layout):
+    """an array equal to `a` index by index, with another memory layout: C / Fortran order, a transposed view
+    (what np.vstack([x, y, z]).T gives), a strided view (every second row of a larger array), negative strides"""
+    a = np.asarray(a)
+    if a.ndim == 0:
+        return a                      # (np.ascontiguousarray would make it 1-D)
+    if layout == 'C':
+        return np.ascontiguousarray(a)
+    if layout == 'F':
+        return np.asfortranarray(a)
+    if layout == 'T':
+        return np.ascontiguousarray(a.T).T
+    if layout == 'S':
+        big = np.zeros((2 * a.shape[0] + 1,) + a.shape[1:], dtype=a.dtype)
+        big[1::2] = a
+        return big[1::2]
+    b = np.ascontiguousarray(a[::-1])
+    return b[::-1]
+
+
 # --------------------------------------------------------------------------- geometry
 def fmt10g(v):
     return '%.10g' % v
@@ -134,7 +157,8 @@ def gen_geometry(chk):
             for f64 in (False, True):
                 cases.append(dict(nv=nv, nf=nf, coords=[SPECIAL_F32[(k + i) % len(SPECIAL_F32)] for i in range(nv * 3)],
                                   faces=[(i * 7 + k) % max(nv, 1) for i in range(nf * 3)], f64=f64,
-                                  stamp=STAMPS[k % len(STAMPS)], vkind=k % 3, vi=gen_vinfo(rng, k % 3), idt='int32' if k % 2 else 'int64'))
+                                  stamp=STAMPS[k % len(STAMPS)], vkind=k % 3, vi=gen_vinfo(rng, k % 3), idt='int32' if k % 2 else 'int64',
+                                  clay=LAYOUTS[k % 5], flay=LAYOUTS[(k // 5) % 5]))
                 k += 1
     for _ in range(chk.n(1500, 12000)):
         nv = rng.choice([0, 1, 2, 3, 5, 8, 17])
@@ -144,7 +168,8 @@ def gen_geometry(chk):
             faces[rng.randrange(len(faces))] = rng.choice([-1, 2 ** 31 - 1, -2 ** 31])
         vk = rng.choice([0, 1, 2, 2])
         cases.append(dict(nv=nv, nf=nf, coords=rand_f32(rng, nv * 3), faces=faces, f64=rng.random() < 0.3,
-                          stamp=rng.choice(STAMPS), vkind=vk, vi=gen_vinfo(rng, vk), idt=rng.choice(['int32', 'int64'])))
+                          stamp=rng.choice(STAMPS), vkind=vk, vi=gen_vinfo(rng, vk), idt=rng.choice(['int32', 'int64']),
+                          clay=rng.choice(LAYOUTS), flay=rng.choice(LAYOUTS)))
     return cases
 
 
@@ -157,7 +182,8 @@ def run_geometry(chk, path, cases=None):
         if c['f64']:
             with np.errstate(all='ignore'):
                 coords = coords.astype(np.float64)
-        faces = np.array(c['faces'], dtype=c['idt']).reshape(c['nf'], 3)
+        faces = with_layout(np.array(c['faces'], dtype=c['idt']).reshape(c['nf'], 3), c.get('flay', 'C'))
+        coords = with_layout(coords, c.get('clay', 'C'))
         vi = c['vi']
         with warnings.catch_warnings():
             warnings.simplefilter('ignore')
@@ -177,6 +203,7 @@ def run_geometry(chk, path, cases=None):
                   tag=f"geometry:nv={min(c['nv'], 4)}{'+' if c['nv'] > 4 else ''}",
                   sample={'kind': 'geometry', 'nv': c['nv'], 'nf': c['nf'], 'stamp': c['stamp'][:20], 'vinfo': c['vkind']} if i in (20, 77) else None)
         chk.tagc('geometry:vinfo=' + ['none', 'empty', 'full'][c['vkind']])
+        chk.tagc('geometry:coords_layout=' + c.get('clay', 'C'))
     got = run_model(PROP, lines)
     for i, (c, o) in enumerate(zip(cases, obs)):
         dis = []
@@ -298,7 +325,7 @@ def gen_morph(chk):
     k = 0
     for n in range(0, 6):
         for sh in ((n,), (n, 1), (1, n), (n, 1, 1)):
-            cases.append(dict(shape=sh, values=[SPECIAL_F32[(k + i) % len(SPECIAL_F32)] for i in range(n)], fnum=[0, 7, 2 ** 31 - 1, -2 ** 31][k % 4], f64=False))
+            cases.append(dict(shape=sh, values=[SPECIAL_F32[(k + i) % len(SPECIAL_F32)] for i in range(n)], fnum=[0, 7, 2 ** 31 - 1, -2 ** 31][k % 4], f64=False, lay=LAYOUTS[k % 5]))
             k += 1
     for sh in MORPH_BAD_SHAPES:
         cases.append(dict(shape=sh, values=[0x3f800000] * int(np.prod(sh)), fnum=0, f64=False))
@@ -308,7 +335,7 @@ def gen_morph(chk):
         n = rng.choice([0, 1, 2, 3, 7, 20, 64])
         sh = rng.choice([(n,), (n, 1), (1, n), (n, 1, 1)])
         cases.append(dict(shape=sh, values=rand_f32(rng, n), fnum=rng.choice([0, 0, n * 2, rng.randrange(-5, 10 ** 6)]),
-                          f64=rng.random() < 0.3))
+                          f64=rng.random() < 0.3, lay=rng.choice(LAYOUTS)))
     return cases
 
 
@@ -321,6 +348,7 @@ def run_morph(chk, path, cases=None):
         if c['f64']:
             with np.errstate(all='ignore'):
                 vals = vals.astype(np.float64)
+        vals = with_layout(vals, c.get('lay', 'C'))
         o = {}
         try:
             with warnings.catch_warnings():
@@ -440,8 +468,9 @@ def run_annot(chk, path, cases=None):
         if c['cols'] == 5:
             # fill_ctab=True ignores the 5th column (give junk); fill_ctab=False needs the right one
             rows = [r + [exact_pack(r) if not c['fill'] else 12345] for r in rows]
-        ctab = np.array(rows, dtype=c['dtype'])
-        labels = np.array(c['labels'], dtype=int)
+        lay = c.get('lay') or LAYOUTS[i % 5]
+        ctab = with_layout(np.array(rows, dtype=c['dtype']), lay)
+        labels = with_layout(np.array(c['labels'], dtype=int), LAYOUTS[(i // 5) % 5] if not c.get('lay') else lay)
         o = {}
         try:
             with warnings.catch_warnings():
@@ -527,8 +556,15 @@ def gen_mgh(chk):
     for shape in [(3,), (2, 3), (2, 3, 4), (2, 3, 4, 5), (1, 1, 1), (1, 1, 1, 2), (2, 1, 3, 7), (5, 1), (2, 3, 4, 1), (2, 3, 4, 5, 6)]:
         for dt in MGH_DTYPES:
             cases.append(dict(shape=shape, dt=np.dtype(dt).name, zooms=[1.0 + k % 3, 2.5, 0.75], tr=[0.0, 2.0, 1234.5][k % 3],
-                              foot=[SPECIAL_F32[(k + j) % len(SPECIAL_F32)] for j in range(4)], mgz=k % 4 == 1, seed=k))
+                              foot=[SPECIAL_F32[(k + j) % len(SPECIAL_F32)] for j in range(4)], mgz=k % 4 == 1, seed=k, hist=None))
             k += 1
+    # histories in which the affine changes AFTER the repetition time was set (4-D, tr != 0)
+    for hist in ('affine-inplace', 'header-reuse', 'loaded-header-reuse'):
+        for dt in MGH_DTYPES:
+            for tr in (2.0, 1234.5):
+                cases.append(dict(shape=(2, 3, 4, 3), dt=np.dtype(dt).name, zooms=[1.5, 2.5, 0.75], tr=tr,
+                                  foot=[SPECIAL_F32[(k + j) % len(SPECIAL_F32)] for j in range(4)], mgz=k % 4 == 1, seed=k, hist=hist))
+                k += 1
     for _ in range(chk.n(700, 6000)):
         nd = rng.choice([1, 2, 3, 3, 4, 4])
         shape = tuple(rng.randrange(1, 5) for _ in range(nd))
@@ -537,7 +573,8 @@ def gen_mgh(chk):
         cases.append(dict(shape=shape, dt=np.dtype(rng.choice(MGH_DTYPES)).name,
                           zooms=[rng.choice([1.0, 0.5, 2.0, rng.uniform(0.1, 5)]) for _ in range(3)],
                           tr=rng.choice([0.0, 1.0, 2000.0, rng.uniform(0, 5000)]), foot=rand_f32(rng, 4, special=0.2),
-                          mgz=rng.random() < 0.2, seed=rng.randrange(10 ** 6)))
+                          mgz=rng.random() < 0.2, seed=rng.randrange(10 ** 6),
+                          hist=rng.choice([None, None, 'affine-inplace', 'header-reuse', 'loaded-header-reuse']) if nd >= 3 else None))
     return cases
 
 
@@ -567,6 +604,19 @@ def run_mgh(chk, path, cases=None):
                 for name, v in zip(('flip_angle', 'te', 'ti', 'fov'), ftr):
                     h[name] = v
                 o['zooms_before'] = f32bits(np.array(h.get_zooms(), dtype=np.float32))
+                hist = c.get('hist')
+                if hist:
+                    # the affine changes after TR was set: another origin and a flipped axis (same voxel sizes)
+                    aff2 = aff.copy()
+                    aff2[:3, 3] = [11, -2, 4.5]
+                    aff2[:3, 0] *= -1
+                    if hist == 'affine-inplace':
+                        img.affine[...] = aff2
+                    elif hist == 'header-reuse':
+                        img = MGHImage(data, aff2, header=img.header)
+                    else:
+                        img = MGHImage(data, aff2, header=MGHImage.from_bytes(img.to_bytes()).header)
+                    h = img.header
                 if c['mgz']:
                     p = path + '.mgz'
                     img.to_filename(p)
@@ -604,6 +654,7 @@ def run_mgh(chk, path, cases=None):
         chk.count(key=('mgh', c['shape'], c['dt'], c['seed']), tag=f"mgh:ndim={len(c['shape'])}",
                   sample={'kind': 'mgh', 'shape': c['shape'], 'dtype': c['dt'], 'tr': c['tr']} if i == 13 else None)
         chk.tagc('mgh:' + c['dt'])
+        chk.tagc('mgh:history=' + str(c.get('hist')))
     got = run_model(PROP, lines)
     for i, (c, o) in enumerate(zip(cases, obs)):
         dis, pred, known = [], None, None
@@ -723,12 +774,13 @@ UNPROVED = [
 def run(chk: Check):
     ensure_impl_path()
     chk.rule = ('geometry: every (n vertices, n faces) in 0..3 x 0..3 + random meshes up to 17 vertices, coordinates = float32 '
-                'bit patterns incl. +-0, subnormals, max, inf, quiet NaN payloads, float32/float64 input, faces int32/int64 '
+                'bit patterns incl. +-0, subnormals, max, inf, quiet NaN payloads, float32/float64 input in C / Fortran / transposed-view / strided / negative-stride memory layouts (also for morph values, labels and colour tables), faces int32/int64 '
                 'incl. out-of-range ids, 6 stamps (empty, unicode, 300 chars), volume_info none/empty/full; morph: the four '
                 'accepted shapes x n in 0..5 + rejected shapes + fnum bounds + random; annot: 1..36 colours with pairwise '
                 'distinct non-zero packed values, labels in {-1}+[0,n), fill_ctab both ways, 4/5 columns, long/empty/multi-byte UTF-8 (given as str or bytes) '
                 'names, colour tables of dtype int64/int32/uint32 and the narrow uint8/int8/int16/uint16, plus one black-colour case (S-C19a) and three refusals; MGH: 1-5 '
-                'dims x 4 dtypes x zooms/TR/footer bit patterns, .mgz for a fifth; label files: direct read check. Distinct by '
+                'dims x 4 dtypes x zooms/TR/footer bit patterns, .mgz for a fifth, histories in which the affine changes after TR was '
+                'set (in place, header reuse, reuse of a loaded header); label files: direct read check. Distinct by '
                 'the full input')
     chk.assumptions = ['float casts (float64 -> float32, float32 -> float64), "%.10g" formatting and float()/int() parsing, utf-8 '
                        'encode/decode of valid text are NumPy/CPython: the model moves bit patterns and text tokens',
